@@ -66,7 +66,7 @@ CLAIMED = {
         technique="Lean 4: assertion-validity theorems derived from the frame invariant (C07_local_drop_asserts, C07_scope_drop_asserts), totality/limit theorems for the repaired paths (D6, D7, D8), bounded send; implementation run under catch_unwind + deadline on wild call sequences incl. TLS-teardown calls, 4100 nested scopes, 10245 local spans, full ring",
         text="Kernel-checked: at every guard drop of a well-nested program the handle is in range, epochs agree, next_parent_id is the span being closed, the scope token is present (so no debug_assert or index panic on those paths); current_local_parent() is total; the scope/queue limits yield no-op guards; closures run outside the stack borrow; send/force_send push at most pending+1 times. "
              "Tie: every generated call sequence (incl. re-entrant closures, no reporter, no-op/unsampled spans, empty parent sets, calls from thread-local destructors) runs on a debug build under catch_unwind with a per-call deadline; corpus holds the D6/D7/D7b/D8 witnesses (panic on the unfixed code, confirmed); a probe in a thread-local registered before the thread's first tracing call runs a battery of API calls after fastrace's own thread-locals are destroyed (incl. SpanContext::random(): defect D18, fixed in /repo 275e7dd).",
-        note="Partial: blocking in allocator/OS/parking_lot and lock ordering are not expressible in the functional model (source-level argument in DESIGN.md).",
+        note="Partial: blocking in allocator/OS/parking_lot and lock ordering are not expressible in the functional model (source-level argument in DESIGN.md). Open known finding D20 (KNOWN-FINDING line, witness corpus/known/kf-C07-D20-*.txt): LocalSpan::with_properties while a newer local-parent scope is open trips a debug assertion and aborts; not repaired because a #[should_panic] unit test of the baseline suite pins the assertion. The harness installs a `log` logger that re-enters the tracing API, so a library path that logs under one of its own borrows panics visibly (round-10 change C07f).",
         design="§4 C07"),
     "C08": dict(
         technique="Lean 4: exact retained-key-set theorem for a cycle and its corollaries over batch histories; drain lemmas for receivers; differential incl. verif::collector_stats(); python oracle on final stats",
